@@ -189,7 +189,16 @@ def call_ext(I: Any, name: str, args: List[Term], kwargs: Dict[str, Term], st: A
             return ("chunks", args[1][1], args[1][2])       # "".join(tuple of n characters) is that text
     if name == "builtins.map":
         return make_map(I, args[0], args[1], st, ctx, node)
-    if name == "builtins.filter":
+    if name == "builtins.filter" and len(args) == 2:
+        its_f = I.iter_items(args[1], st, ctx, node)
+        if its_f is not None and len(its_f) <= 64 and args[0] != c(None):
+            # over known items: each item with the condition under which it is kept (as a filtered comprehension)
+            pairs_f = [(I.truth(I.call(args[0], [x_], {}, st, ctx, node), st), x_) for x_ in its_f]
+            pairs_f = [(cn, x_) for cn, x_ in pairs_f if not (is_c(cn) and not cn[1])]
+            if all(is_c(cn) for cn, _ in pairs_f):
+                from .interp import HeapObj
+                return st.alloc(HeapObj("list", None, {}, [x_ for _, x_ in pairs_f]))
+            return ("condlist", tuple(pairs_f))
         return ("filterobj", lambda_norm(I, args[0], args[1], st, ctx, node), args[1])
     if name == "builtins.sum":
         if len(args) == 1:
@@ -383,6 +392,17 @@ def call_ext(I: Any, name: str, args: List[Term], kwargs: Dict[str, Term], st: A
             for it in (items if len(args) == 3 else items[1:]):
                 acc = I.call(args[0], [acc, it], {}, st, ctx, node)
             return acc
+        src_ = args[1]
+        if isinstance(src_, tuple) and (src_[:1] == ("map",) or (src_[:1] == ("mapobj",) and len(src_) == 4)) and args[0] in (("ext", "operator.or_"), ("ext", "operator.add"), ("ext", "operator.xor")) \
+                and (len(args) == 2 or args[2] == c(0)):
+            body_, it_ = src_[1], src_[2]
+            alts_ = body_[3] if isinstance(body_, tuple) and body_[:1] == ("eattr",) and len(body_) > 3 else None
+            pow2 = bool(alts_) and all(isinstance(a_, int) and not isinstance(a_, bool) and a_ > 0 and a_ & (a_ - 1) == 0 for a_ in alts_) and len(set(alts_)) == len(alts_)
+            if args[0][1] == "operator.add" and len(args) == 3:
+                return app("sum", [("map", body_, it_)])
+            if pow2 and dupfree_collection(I, it_, st) and (len(args) == 3 or False):
+                # OR (or XOR) of distinct powers of two taken from distinct members is their sum: no two share a bit
+                return app("sum", [("map", body_, it_)])
         return I.external_call(name, args, kwargs, st, ctx, node, awaited, opaque=True)
     if name == "builtins.zip" and len(args) >= 2 and not kwargs:
         lists = [I.iter_items(a, st, ctx, node) for a in args]
@@ -610,6 +630,36 @@ def _fmt_parts(fmt: str) -> Optional[Tuple[str, List[Tuple[str, int]]]]:
     return order, items
 
 
+def dupfree_collection(I: Any, it: Term, st: Any) -> bool:
+    """The collection holds no element twice: a set, or a sequence the path has tested with len(x) == len(set(x))."""
+    if it[0] in ("cset", "condset") or (it[0] == "sym" and isinstance(it[2], tuple) and it[2] and it[2][0] == "set"):
+        return True
+    if it[0] == "obj" and st is not None and st.heap[it[1]].kind == "set":
+        return True
+    if st is not None:
+        from .frames import flat_pc
+        ln, ls = ("len", it), ("len", ("app", "set", it))
+        have = flat_pc(list(st.pc))
+        if ("cmp", "==", ln, ls) in have or ("cmp", "==", ls, ln) in have:
+            return True
+    return False
+
+
+def sum_of_distinct_bound(I: Any, x: Term, st: Any) -> Optional[Tuple[int, int]]:
+    """Range of sum(f(e) for e in xs) when f takes values from a finite table of non-negative integers and xs holds no
+    element twice - and equal elements are the only way to get equal table entries' owners twice: [0, sum of the table]."""
+    if x[0] == "app" and x[1] == "int" and len(x) == 3:
+        x = x[2]
+    if not (x[0] == "app" and x[1] == "sum" and len(x) == 3 and isinstance(x[2], tuple) and x[2][:1] == ("map",)):
+        return None
+    body, it = x[2][1], x[2][2]
+    if not (isinstance(body, tuple) and body[:1] == ("eattr",) and len(body) > 3 and body[3] and all(isinstance(a, int) and not isinstance(a, bool) and a >= 0 for a in body[3])):
+        return None
+    if len(set(body[3])) != len(body[3]) or not dupfree_collection(I, it, st):
+        return None
+    return (0, sum(body[3]))
+
+
 def struct_pack(I: Any, args: List[Term], st: Any, ctx: Any, node: ast.AST) -> Term:
     where = ctx.loc(node)
     if not args or not is_c(args[0]) or not isinstance(args[0][1], (str, bytes)):
@@ -628,6 +678,8 @@ def struct_pack(I: Any, args: List[Term], st: Any, ctx: Any, node: ast.AST) -> T
         val = int_view(val)
         signed = ch.islower()
         rng = T.int_range(val)
+        if rng is None or rng[0] is None or rng[1] is None:
+            rng = sum_of_distinct_bound(I, val, st) or rng
         lo, hi = (-(1 << (8 * size - 1)), (1 << (8 * size - 1)) - 1) if signed else (0, (1 << (8 * size)) - 1)
         if rng is None or rng[0] is None or rng[1] is None or rng[0] < lo or rng[1] > hi:
             if rng is not None and rng[0] is not None and rng[1] is not None and (rng[1] < lo or rng[0] > hi):
@@ -636,6 +688,9 @@ def struct_pack(I: Any, args: List[Term], st: Any, ctx: Any, node: ast.AST) -> T
                 st.may_raise("struct.error", ("outofrange", val, lo, hi), where)
         ks = range(size) if order == "<" else range(size - 1, -1, -1)
         for k in ks:
+            if size == 1 and not signed and not is_c(val):
+                atoms.append(("fmt", "02x", val))        # the one byte of a value in 0..255 is the value: its hex is '{:02x}'
+                continue
             b = T.byte_of_int(val, k, size)
             atoms.extend(b or [("hbi", val, k)])
     return T.seq("raw", atoms)
@@ -814,6 +869,11 @@ def arith(op: str, a: Term, b: Term) -> Term:
                       "lshift": lambda x, y: x << y, "rshift": lambda x, y: x >> y, "pow": lambda x, y: x ** y}[op](a[1], b[1]))
         except Exception:  # noqa: BLE001
             return app(op, [a, b])
+    # identities with 0 on integers: 0 | x, x | 0, 0 ^ x, x ^ 0 are x
+    if op in ("or", "xor"):
+        for k_, x_ in ((a, b), (b, a)):
+            if is_c(k_) and k_[1] == 0 and not isinstance(k_[1], bool) and isinstance(k_[1], int) and is_int_term(x_):
+                return x_
     lin_ok = lambda v: v[0] in ("c", "lin", "sym", "len", "uint", "app", "dec", "eattr", "attr", "item", "elemof", "argmin", "argmax")  # noqa: E731
     if op in ("add", "sub") and lin_ok(a) and lin_ok(b) and not _is_datetime_like(a) and not _is_datetime_like(b):
         la, lb = Lin.of(a), Lin.of(b)
@@ -1235,6 +1295,18 @@ def isinstance_cond(I: Any, v: Term, cls: Term, st: Any) -> Term:
 
 
 def enum_by_value(I: Any, ci: ClassInfo, args: List[Term], st: Any, ctx: Any, node: ast.AST) -> Term:
+    en = ci.enum
+    if en is not None and len(args) == 1 and en.members and all(isinstance(v, (int, str)) and not isinstance(v, bool) for v in en.members.values()) and len(set(en.members.values())) == len(en.members) \
+            and not ci.find_method("_missing_") and not ci.find_method("__new__"):
+        # Enum(value) over plain distinct int / str values: the member whose value it is, ValueError when there is none
+        from .interp import EnumRef, fold_cmp
+        x = I.canon_cmp_operand(args[0], st)
+        vals = [(I.canon_cmp_operand(c(v), st), ("enum", EnumRef(ci.key, m))) for m, v in en.members.items()]
+        for k_, mem_ in vals:
+            if fold_cmp("==", x, k_) is True:
+                return mem_
+        st.may_raise("ValueError", ("cmp", "not in", x, ("tuple", tuple(k_ for k_, _ in vals))), ctx.loc(node))
+        return ("lookup", tuple(vals), x)
     st.may_raise("ValueError", ("invalid", "enum value", ci.key, tuple(args)), ctx.loc(node))
     return app("enum_by_value", [c(ci.key)] + list(args))
 
@@ -1898,6 +1970,15 @@ def text_method(I: Any, s: Term, name: str, args: List[Term], kwargs: Dict[str, 
     if name in ("isdigit", "isalpha", "isalnum", "startswith", "endswith"):
         if all(a[0] == "L" for a in s[2]) and all(is_c(a) for a in args):
             return c(getattr("".join(a[1] for a in s[2]), name)(*[a[1] for a in args]))
+        if name == "startswith" and len(args) == 1 and not kwargs:
+            # x.startswith(prefix) with a prefix of known length n is x[:n] == prefix (a shorter x compares unequal)
+            ps = T.to_seq(args[0]) if _textlike(args[0]) else None
+            n_ = T.const_width(ps) if ps is not None else None
+            if ps is not None and n_ is not None and ps[1] == kind:
+                n_units = int(n_) // 2 if kind == "raw" else int(n_)
+                head = slice_value(I, s, c(0), c(n_units), st, ctx, node)
+                if not is_top(head):
+                    return I.compare(ast.Eq(), head, ps if kind == "raw" else args[0], st, ctx, node)
         return ("truthy", app("." + name, [s] + args))
     if name == "replace":
         return ("seq", kind, (("txt", ("app", "replace", s) + tuple(args)),))
